@@ -330,6 +330,46 @@ func genC19(r *Run) {
 			}
 		}
 	}
+	// names whose length depends on how they end (C05's boundary family), and names completed through a pointer
+	// whose two parts are each within the limit while the whole is not (or just is)
+	for _, w := range nameBoundaryWires() {
+		r.Add(eLabelFrom, w)
+		r.Add(eLabelReenc, w)
+		checkWrappers(r, w)
+	}
+	mkName := func(dotted int, ch byte) []byte { // labels of <= 63 octets, dotted length exactly `dotted`, no terminator
+		var b []byte
+		rem := dotted
+		for rem > 0 {
+			l := minInt(63, rem)
+			if rem-l == 1 {
+				l--
+			}
+			b = append(b, byte(l))
+			for i := 0; i < l; i++ {
+				b = append(b, ch)
+			}
+			rem -= l
+			if rem > 0 {
+				rem--
+			}
+		}
+		return b
+	}
+	for _, tgt := range []int{1, 63, 100, 126, 127, 199, 250, 252, 253} {
+		for _, pre := range []int{1, 2, 40, 53, 81, 126, 127, 128, 150, 251, 252, 253} {
+			t := append(mkName(tgt, 't'), 0)
+			w := append(append(append([]byte{}, t...), mkName(pre, 'p')...), 0xc0, 0) // target at offset 0, then prefix + pointer
+			r.Add(eLabelFrom, w)
+			r.Add(eLabelReenc, w)
+			checkWrappers(r, w)
+			// the pointer aimed at the second label of the target
+			if tgt > 64 {
+				w2 := append(append(append([]byte{}, t...), mkName(pre, 'p')...), 0xc0, 64)
+				r.Add(eLabelFrom, w2)
+			}
+		}
+	}
 	// long names around the 253 limit
 	for _, tot := range []int{250, 251, 252, 253, 254, 255, 256, 300} {
 		var n []string
